@@ -19,3 +19,4 @@ import Brax.Props.C01
 import Brax.Lemmas.ScanSpec
 import Brax.Lemmas.KinEquiv
 import Brax.Props.C19
+import Brax.Props.C05
